@@ -11,4 +11,5 @@ def run(tier, seed):
                 'conditions': 'every if-condition a free boolean'}
     c.outside = ['nesting deeper than the stated depth', 'loops with more than 2 iterations', 'jumps at positions other than the innermost one']
     c.run_family('control', ts, ('exit', 'stdout', 'stderr-empty', 'panic', 'hang'), control.role)
+    c.run_random(('exit', 'stdout', 'stderr-empty', 'panic', 'hang'))
     return c.finish()
